@@ -27,6 +27,7 @@ CLASS_SHAPE = {
     "version": re.compile(r"^\d+\.\d+(?:\.\d+)?(?:[-+][A-Za-z0-9.]+)?\Z"),
     "variable": re.compile(r"^\$[A-Za-z0-9_]+(?::[A-Za-z_]\w*)?\Z"),
     "expr": re.compile(r"^%s(?:[%s]%s)+\Z" % (_W, OPS, _W)),
+    "expr_pct": re.compile(r"^(?:%s|\d+(?:\.\d+)?%%(?:%s)?)(?:[%s](?:%s|\d+(?:\.\d+)?%%(?:%s)?))+\Z" % (_W, _W, OPS, _W, _W)),
     "percent": re.compile(r"^-?\d+(?:\.\d+)?(?:[eE][+-]?\d+)?%(?:[A-Za-z_]\w*)?\Z"),
     "annotation_u": re.compile(r"^[^\W\d]\w*<[^\W\d]\w*>\Z"),
     "multiword_mixed": re.compile(
@@ -269,7 +270,7 @@ class Lenient:
         if cls == "secref" and re.match(r"^§[A-Za-z0-9_]+\Z", s) and bare_ok():
             self.op("§", spaced_ok=False)
             return o.w(s[1:])
-        if cls == "expr" and not (in_single_item_list and "∧" in s) and bare_ok():
+        if cls in ("expr", "expr_pct") and not (in_single_item_list and "∧" in s) and bare_ok():
             for tok in re.split("([" + OPS + "])", s):
                 if tok and tok in OPS:
                     self.op(tok)
